@@ -63,7 +63,7 @@ def len_of(E, l):
     raise Unsupported("symbolic container length with too many values")
 
 
-def install(E, inline_types=(), target=None):
+def install(E, inline_types=(), target=None, adversarial=False):
     inline = set(inline_types) | {"BigNum", "u64", "u32", "u8", "bool", "i32", "usize"}
     if target:
         inline.add(target)
@@ -176,6 +176,8 @@ def install(E, inline_types=(), target=None):
 
     def cbor_type_of(tok):
         k = tok[0]
+        if k == "broken":
+            k = tok[1]
         if k == "item":
             fk = first_kind(tok[2]) if len(tok) > 2 else None
             if fk in ("uint", "int", "nint", "bytes", "text", "array", "map", "tag", "special"):
@@ -189,10 +191,14 @@ def install(E, inline_types=(), target=None):
         if not isinstance(d, VDe):
             return NotImplemented
         tok = peek(d)
+        if meth == "as_mut_ref":
+            return args[0]          # the reader under the token model is the token cursor itself
         if meth == "cbor_type":
             return ok(VEnum("Type", cbor_type_of(tok), [])) if tok is not None else err("eof")
         if tok is None:
             return err("eof")
+        if tok[0] == "broken":
+            return err("item of kind %s is truncated or malformed" % tok[1])
         def take(kind):
             if tok[0] != kind:
                 return None
@@ -226,6 +232,161 @@ def install(E, inline_types=(), target=None):
         raise Unsupported("deserializer method " + meth)
     E.extra_intrinsics[r"cbor_event::de::Deserializer::<.*>::\w+$"] = de_call
 
+    def blen(E_, u):
+        n = z3.Function("container_len", E_.U, z3.IntSort())(u)
+        E_.pc.append(n >= 0)
+        return n
+
+    def bytes_index(E_, c, args):
+        v = deref(E_, args[0])
+        if not isinstance(v, (VOpaque, VLazy)):
+            return NotImplemented
+        rg = args[1]
+        end = rg.fields[0] if isinstance(rg, VStruct) and rg.fields else None
+        if end is None or not isinstance(end, VInt):
+            return NotImplemented
+        n = blen(E_, E_.as_u(v))
+        if E_.choose([end.t <= n, end.t > n], "slice end") == 1:
+            raise PathAbort("panic", "range end index out of range for slice")
+        sl = VOpaque("slice", [], z3.FreshConst(E_.U, "slice"))
+        E_.pc.append(z3.Function("container_len", E_.U, z3.IntSort())(sl.t) == end.t)
+        return VRef(Cell(sl, "slice"))
+    E.extra_intrinsics[r"^<(std::vec::Vec<u8>|\[u8\]) as (std::ops::)?Index<(std::ops::)?RangeTo<usize>>>::index$"] = bytes_index
+
+    def bytes_at(E_, c, args):
+        v = deref(E_, args[0])
+        if not isinstance(v, (VOpaque, VLazy)) or not isinstance(args[1], VInt):
+            return NotImplemented
+        n = blen(E_, E_.as_u(v))
+        if E_.choose([args[1].t < n, args[1].t >= n], "byte index") == 1:
+            raise PathAbort("panic", "index out of bounds")
+        x = z3.FreshConst(z3.IntSort(), "byte")
+        E_.pc.append(z3.And(x >= 0, x < 256))
+        return VRef(Cell(VInt(x, "u8"), "byte"))
+    E.extra_intrinsics[r"^<(std::vec::Vec<u8>|\[u8\]) as (std::ops::)?Index<usize>>::index$"] = bytes_at
+
+    def fill_buf(E_, c, args):
+        """BufRead::fill_buf on the token cursor: the unread remainder; its length in the cursor's unit (tokens), consistent with seek positions"""
+        d = deref(E_, args[0])
+        if not isinstance(d, VDe):
+            return NotImplemented
+        sl = VOpaque("slice", [], z3.FreshConst(E_.U, "remainder"))
+        E_.pc.append(z3.Function("container_len", E_.U, z3.IntSort())(sl.t) == len(d.tokens) - d.pos)
+        return ok(VRef(Cell(sl, "remainder")))
+    E.extra_intrinsics[r"^<\w+ as (std::io::)?BufRead>::fill_buf$"] = fill_buf
+    E.extra_intrinsics[r"^std::slice::<impl \[u8\]>::to_vec$"] = lambda E_, c, args: clone(deref(E_, args[0])) if isinstance(deref(E_, args[0]), VOpaque) else NotImplemented
+
+    def read_nint(E_, c, args):
+        d = deref(E_, args[0])
+        if not isinstance(d, VDe):
+            return NotImplemented
+        tok = peek(d)
+        if tok is None or tok[0] != "nint":
+            return err("expected negative integer")
+        d.pos += 1
+        return ok(VInt(tok[1], "i128"))
+    E.extra_intrinsics[r"(^|::)read_nint::<.*>$"] = read_nint
+
+    def read_bounded_bytes(E_, c, args):
+        """definite or chunked byte string with the 64-byte chunk bound: byte-level helper, here: a bytes token is accepted or refused"""
+        d = deref(E_, args[0])
+        if not isinstance(d, VDe):
+            return NotImplemented
+        tok = peek(d)
+        if tok is None or tok[0] != "bytes":
+            return err("expected bytes")
+        b = z3.FreshConst(z3.BoolSort(), "within_bound")
+        if E_.choose([b, z3.Not(b)], "bounded bytes verdict", trust=True) == 1:
+            return err("bounded bytes violation")
+        d.pos += 1
+        return ok(VOpaque("bytes", [], tok[1]))
+    if adversarial:
+        E.extra_intrinsics[r"(^|::)read_bounded_bytes::<.*>$"] = read_bounded_bytes
+
+    def consume(E_, c, args):
+        d = deref(E_, args[0])
+        if not isinstance(d, VDe):
+            return NotImplemented
+        n = E_.concretize(args[1].t)
+        if n is None:
+            raise Unsupported("symbolic consume")
+        d.pos += n
+        return UNIT
+    E.extra_intrinsics[r"^<\w+ as (std::io::)?BufRead>::consume$"] = consume
+    E.extra_intrinsics[r"(^|::)PlutusMap::add_value_move$"] = lambda E_, c, args: UNIT       # LinkedHashMap entry insertion: returns, contents irrelevant to totality
+
+    def bytes_try_into(E_, c, args):
+        v = deref(E_, args[0])
+        m_ = re.search(r"\[u8; (\d+)\]", c)
+        if not isinstance(v, (VOpaque, VLazy)) or not m_:
+            return NotImplemented
+        n = blen(E_, E_.as_u(v))
+        if E_.choose([n == int(m_.group(1)), n != int(m_.group(1))], "slice to array") == 0:
+            return ok(VOpaque("array", [], z3.FreshConst(E_.U, "array")))
+        return VEnum("Result", "Err", [VOpaque("TryFromSliceError")])
+    E.extra_intrinsics[r"^<&\[u8\] as (std::convert::)?TryInto<\[u8; \d+\]>>::try_into$"] = bytes_try_into
+    E.extra_intrinsics[r"^<\[u8; \d+\] as (std::convert::)?TryFrom<&\[u8\]>>::try_from$"] = bytes_try_into
+    E.extra_intrinsics[r"^<std::vec::Vec<u8> as (std::convert::)?AsRef<\[u8\]>>::as_ref$"] = lambda E_, c, args: args[0]
+    E.extra_intrinsics[r"^std::vec::Vec::<u8>::as_slice$"] = lambda E_, c, args: args[0]
+
+    if adversarial:
+        def _addr_leaf(E_, c, args, okty):
+            b = z3.FreshConst(z3.BoolSort(), "leaf_accepts")
+            if E_.choose([b, z3.Not(b)], "leaf parser verdict", trust=True) == 0:
+                src_ = deref(E_, args[0]) if args else None
+                if isinstance(src_, (VOpaque, VLazy)):
+                    E_.pc.append(blen(E_, E_.as_u(src_)) >= 1)      # contract of the address parser (E1: an empty address is rejected)
+                return ok(E_._typed_result(okty, "addr_leaf_%d" % len(E_.lazy_ident), "addr_leaf", []))
+            return VEnum("Result", "Err", [VOpaque("leaf_error")])
+
+        def leaf_from_bytes(E_, c, args):
+            """byte-level leaf parsers (addresses, keys, signatures): opaque, fail or succeed — decided at byte level by E1 where claimed"""
+            d_ = E_.P.resolve(c)
+            ret = E_.P.fns[d_].ret if d_ in E_.P.fns else "Result<?>"
+            ty_ = last_seg(re.sub(r"::<.*$", "", re.sub(r"::\w+(::<.*>)?$", "", c)))
+            if last_seg(ret) == "Result" and "<" in ret:
+                from mirparse import split_top as _st, match_close as _mc
+                k_ = ret.index("<")
+                okty = _st(ret[k_ + 1:_mc(ret, k_)])[0].strip()
+                if last_seg(okty) not in ("Self",):
+                    return E_.typed_result(ret, "leaf@%d" % len(E_.trace), [E_.as_u(a) for a in args]) if not ("Address::from_bytes_impl" in c) else _addr_leaf(E_, c, args, okty)
+            if not last_seg(ret) == "Result":
+                return VLazy("leaf_%d" % len(E_.lazy_ident), last_seg(ret) if last_seg(ret) != "Self" else ty_)
+            b = z3.FreshConst(z3.BoolSort(), "leaf_accepts")
+            if E_.choose([b, z3.Not(b)], "leaf parser verdict", trust=True) == 0:
+                if "Address::from_bytes_impl" in c and args:
+                    src_ = deref(E_, args[0])
+                    if isinstance(src_, VOpaque):
+                        E_.pc.append(blen(E_, E_.as_u(src_)) >= 1)      # contract of the address parser (E1: an empty address is rejected)
+                return ok(VLazy("leaf_%d" % len(E_.lazy_ident), ty_))
+            return VEnum("Result", "Err", [VOpaque("leaf_error")])
+        E.extra_intrinsics[r"(^|::)blake2b(256|224|160)$"] = lambda E_, c, a: VOpaque("hash", [], z3.Function("blake2b", E_.U, E_.U)(E_.as_u(a[0])))
+        E.extra_intrinsics[r"(^|::)\w+::from_bytes$"] = leaf_from_bytes
+        E.extra_intrinsics[r"(^|::)has_transaction_set_tag_internal$"] = leaf_from_bytes
+        E.extra_intrinsics[r"(^|::)(Address::from_bytes_impl\w*|PublicKey::from_bytes|PublicKey::<.*>::from_binary|Ed25519Signature::from_bytes|Signature::<.*>::from_binary|KESSignature::from_bytes|VRFCert::from_bytes|Bip32PublicKey::from_bytes)$"] = leaf_from_bytes
+
+    def seek(E_, c, args):
+        """<R as Seek>::seek on the token cursor: positions are token indices (only Current(0) / Start(saved) occur)"""
+        d = deref(E_, args[0])
+        if not isinstance(d, VDe):
+            return NotImplemented
+        sf = args[1]
+        vname = sf.variant if isinstance(sf, VEnum) else getattr(sf, "name", "")
+        if vname.endswith("Current"):
+            off = E_.concretize(sf.fields[0].t)
+            if off is None:
+                raise Unsupported("symbolic seek offset")
+            d.pos += off
+            return ok(VInt(d.pos, "u64"))
+        if vname.endswith("Start"):
+            p_ = E_.concretize(sf.fields[0].t)
+            if p_ is None:
+                raise Unsupported("symbolic seek position")
+            d.pos = p_
+            return ok(VInt(d.pos, "u64"))
+        raise Unsupported("seek %r %s" % (sf, type(sf).__name__))
+    E.extra_intrinsics[r"^<\w+ as (std::io::)?Seek>::seek$"] = seek
+
     def nested_deserialize(E_, c, args):
         if not args:
             return NotImplemented
@@ -244,6 +405,17 @@ def install(E, inline_types=(), target=None):
                 lz = VLazy("decoded_%d" % d.pos, tyn)
                 E_.lazy_ident[lz.path] = tok[1]
                 return ok(VEnum("Option", "Some", [lz]))
+            if adversarial:
+                end = item_end(d.tokens, d.pos) if tok is not None else None
+                if end is None:
+                    return err("nested decoder fails")
+                b = z3.FreshConst(z3.BoolSort(), "nested_accepts")
+                if E_.choose([b, z3.Not(b)], "nested decoder verdict", trust=True) == 0:
+                    d.pos = end
+                    lz = VLazy("decoded_%d" % d.pos, tyn)
+                    E_.lazy_ident[lz.path] = z3.FreshConst(E_.U, "nested")
+                    return ok(VEnum("Option", "Some", [lz]))
+                return err("nested decoder fails")
             return NotImplemented
         m = re.match(r"^<(.*) as (?:[\w:]*::)?Deserialize>::deserialize", c) or re.match(r"^(.*)::deserialize(?:_with_version)?(?:::<.*>)?$", c)
         ty = last_seg(m.group(1)) if m else "?"
@@ -253,6 +425,8 @@ def install(E, inline_types=(), target=None):
         if ty in _eng.INT_TYPES and tok is not None and tok[0] in ("uint", "int"):
             d.pos += 1
             return ok(VInt(tok[1], ty))
+        if adversarial and ty in _eng.INT_TYPES:
+            return err("expected integer")
         if ty == target and d.pos == 0 and not getattr(d, "entered", False):
             d.entered = True
             return NotImplemented
@@ -263,6 +437,18 @@ def install(E, inline_types=(), target=None):
             if tok[2] != ty:
                 E_.trace.append(("type_confusion", tok[2], ty))
             return ok(lz)
+        if adversarial:
+            # an opaque nested decoder facing arbitrary tokens: it fails, or it accepts exactly one complete item (its own totality is a separate entry)
+            end = item_end(d.tokens, d.pos) if tok is not None else None
+            if end is None:
+                return err("nested decoder fails")
+            b = z3.FreshConst(z3.BoolSort(), "nested_accepts")
+            if E_.choose([b, z3.Not(b)], "nested decoder verdict", trust=True) == 0:
+                d.pos = end
+                lz = VLazy("decoded_%d" % d.pos, ty)
+                E_.lazy_ident[lz.path] = z3.FreshConst(E_.U, "nested")
+                return ok(lz)
+            return err("nested decoder fails")
         return NotImplemented
     E.extra_intrinsics[r"(as (?:[\w:]*::)?Deserialize>::deserialize|::deserialize(_with_version)?(::<.*>)?$|::deserialize_nullable)"] = nested_deserialize
 
